@@ -65,6 +65,7 @@ def case_exact(log, order, nf, method, shape="complex"):
     mns = EvoMethods[NS_PARTNER.get(method, method)]
     log.encode(sg.dispatcher, ns.dispatcher, ad.exp_matrix_2D)
     rp = (MOD, "replay", {"order": order, "nf": nf, "method": method})
+    log.register_replay("fallback:replay", rp, _sampler)
     key = "singlet.%s:%d" % (method, order)
 
     def run():
@@ -104,6 +105,7 @@ def case_jets(log, order, nf, method, shape="complex"):
     jetmod.set_cap(n + 1)
     log.encode(sg.dispatcher, ns.dispatcher, sg.eko_perturbative, sg.u_vec, sg.r_vec)
     rp = (MOD, "replay_scaling", {"order": order, "nf": nf, "method": method})
+    log.register_replay("fallback:replay_scaling", rp, _sampler)
     key = "singlet.%s:%d" % (method, order)
 
     def run():
@@ -139,6 +141,7 @@ def case_iterate(log, order, nf, method, shape="complex"):
     jetmod.set_cap(5)
     log.encode(sg.dispatcher, sg.eko_iterate, ns.dispatcher)
     rp = (MOD, "replay_iterate", {"order": order, "nf": nf, "method": method})
+    log.register_replay("fallback:replay_iterate", rp, _sampler)
     key = "singlet.%s:%d" % (method, order)
 
     def run():
